@@ -1419,7 +1419,10 @@ theorem removeCrBeforeComment_layoutOnly (l : List Tok) : LayoutOnly l (removeCr
     split
     · rfl
     · split
-      · rename_i h; rw [nonLayout_cons_layout (isCr_layout h), ih]
+      · rename_i h
+        split
+        · rfl
+        · rw [nonLayout_cons_layout (isCr_layout h), ih]
       · rw [nonLayout_cons t r, nonLayout_cons t (removeCrBeforeComment r), ih]
 
 theorem isLC_commentInst {t : Tok} (h : isLC t = true) : isCommentInst t = true := by
@@ -1444,9 +1447,12 @@ theorem cel_removeCrBeforeComment (q : Tok) (hq : isLC q = false) (l post : List
       rw [cel_cons_cons] at h
       simp only [Bool.and_eq_true] at h
       split
-      · apply ih q hq
-        rw [cel_cons_nonLC hq]
-        exact cel_tail h.2
+      · split
+        · simp only [List.cons_append]
+          rw [cel_cons_cons, h.1, h.2]; rfl
+        · apply ih q hq
+          rw [cel_cons_nonLC hq]
+          exact cel_tail h.2
       · simp only [List.cons_append]
         rw [cel_cons_cons, h.1, ih t htl h.2]; rfl
 
@@ -1510,6 +1516,207 @@ theorem fixRemoveCrAfter_spec (c : Cls) (b : Bool) (l new : List Tok) (h : fixRe
         · rw [take_one_rcw, take_one_removeCrBeforeComment l hh]; exact hhead
       · cases h
         exact ⟨hlay, fun hh _ => celSafe_of_right l _ hh (hsafe hh)⟩
+
+/-! ### remove_carriage_return_after_token: a preprocessor line stays a line of its own -/
+
+theorem isWs_not_cr {t : Tok} (h : isWs t = true) : isCr t = false := by
+  unfold isWs at h; unfold isCr
+  cases hk : t.kind <;> simp_all
+
+theorem ppStep_ws (s : PpSt) (t : Tok) (h : isWs t = true) : ppStep s t = some s := by
+  simp [ppStep, isWs_not_cr h, h]
+
+/-- whitespace tokens do not matter for `ppGo` -/
+theorem ppGo_dropWs (s : PpSt) (l : List Tok) : ppGo s (l.filter fun t => !isWs t) = ppGo s l := by
+  induction l generalizing s with
+  | nil => rfl
+  | cons t r ih =>
+    by_cases hw : isWs t = true
+    · simp only [List.filter_cons, hw, Bool.not_true, Bool.false_eq_true, if_false]
+      rw [ih]; simp only [ppGo, ppStep_ws s t hw]
+    · have hw' : isWs t = false := by simpa using hw
+      simp only [List.filter_cons, hw', Bool.not_false, if_true, ppGo]
+      cases ppStep s t with
+      | none => rfl
+      | some s' => exact ih s'
+
+theorem rcwGo_filterWs (p : Tok) (l : List Tok) :
+    (rcwGo p l).filter (fun t => !isWs t) = l.filter (fun t => !isWs t) := by
+  induction l generalizing p with
+  | nil => rfl
+  | cons t r ih =>
+    simp only [rcwGo]
+    split
+    · rename_i h
+      simp only [Bool.and_eq_true] at h
+      rw [ih]; simp [List.filter_cons, h.1]
+    · simp only [List.filter_cons]; rw [ih]
+
+theorem rcw_filterWs (l : List Tok) : (rcw l).filter (fun t => !isWs t) = l.filter (fun t => !isWs t) := by
+  cases l with
+  | nil => rfl
+  | cons t r => simp only [rcw, List.filter_cons]; rw [rcwGo_filterWs]
+
+theorem insertWs_filterWs (c : Cls) (l r : List Tok) (i : Int) (h : insertWs c l i = .ok r) :
+    r.filter (fun t => !isWs t) = l.filter (fun t => !isWs t) := by
+  obtain ⟨_, hr⟩ := insertToken_eq l r i (mkWs c) h
+  rw [hr]
+  have hw : isWs (mkWs c) = true := rfl
+  simp only [List.filter_append, List.filter_cons, hw, Bool.not_true, Bool.false_eq_true, if_false, List.filter_nil,
+    List.append_nil]
+  rw [← List.filter_append, List.take_append_drop]
+
+/-- the fix of remove_carriage_return_after_token is `remove_carriage_returns_before_first_comment` up to
+    whitespace tokens -/
+theorem fixRemoveCrAfter_filterWs (c : Cls) (b : Bool) (l new : List Tok) (h : fixRemoveCrAfter c b l = .ok new) :
+    new.filter (fun t => !isWs t) = (removeCrBeforeComment l).filter (fun t => !isWs t) := by
+  unfold fixRemoveCrAfter at h
+  cases b with
+  | false =>
+    simp only [Bool.false_eq_true, if_false] at h
+    cases h
+    exact rcw_filterWs _
+  | true =>
+    simp only [if_true] at h
+    cases h1 : pyGet (rcw (removeCrBeforeComment l)) 1 with
+    | error e => simp [h1, bind, Except.bind] at h
+    | ok t1 =>
+      simp only [h1, bind, Except.bind] at h
+      split at h
+      · rw [insertWs_filterWs c _ _ 1 h]; exact rcw_filterWs _
+      · cases h; exact rcw_filterWs _
+
+theorem nextIsPreproc_append (a b : List Tok) (ha : nextIsPreproc a = false) (hb : nextIsPreproc b = false) :
+    nextIsPreproc (a ++ b) = false := by
+  induction a with
+  | nil => exact hb
+  | cons t r ih =>
+    simp only [List.cons_append, nextIsPreproc] at ha ⊢
+    split
+    · rename_i hw; simp only [hw, if_true] at ha; exact ih ha
+    · rename_i hw; simpa [hw] using ha
+
+/-- a line that does not begin with a preprocessor token may as well be the continuation of a line
+    that already holds code -/
+theorem ppGo_fresh_code (x : List Tok) (hn : nextIsPreproc x = false) (h : ppGo .fresh x = true) :
+    ppGo .code x = true := by
+  induction x with
+  | nil => rfl
+  | cons t r ih =>
+    simp only [nextIsPreproc] at hn
+    simp only [ppGo, ppStep] at h ⊢
+    by_cases hc : isCr t = true
+    · simp only [hc, if_true] at h ⊢; exact h
+    · have hc' : isCr t = false := by simpa using hc
+      simp only [hc', Bool.false_eq_true, if_false] at h ⊢
+      by_cases hw : isWs t = true
+      · simp only [hw, if_true] at h hn ⊢; exact ih hn h
+      · have hw' : isWs t = false := by simpa using hw
+        simp only [hw', Bool.false_eq_true, if_false] at h hn ⊢
+        simp only [hn, Bool.false_eq_true, if_false] at h ⊢
+        simpa using h
+
+theorem ppStep_code_some (t : Tok) (s' : PpSt) (hc : isCr t = false) (h : ppStep .code t = some s') : s' = .code := by
+  unfold ppStep at h
+  simp only [hc, Bool.false_eq_true, if_false] at h
+  split at h
+  · injection h with h; exact h.symm
+  · split at h
+    · simp at h
+    · simp at h; exact h.symm
+
+/-- on a line that holds code, joining the following lines the way the repaired
+    `remove_carriage_returns_before_first_comment` does never puts anything next to a preprocessor token -/
+theorem ppGo_removeCrBeforeComment (l post : List Tok) (hp : nextIsPreproc post = false)
+    (h : ppGo .code (l ++ post) = true) : ppGo .code (removeCrBeforeComment l ++ post) = true := by
+  induction l with
+  | nil => exact h
+  | cons t r ih =>
+    simp only [removeCrBeforeComment]
+    split
+    · exact h
+    · split
+      · rename_i hcr
+        split
+        · exact h
+        · rename_i hnp
+          have hnp' : nextIsPreproc r = false := by simpa using hnp
+          apply ih
+          simp only [List.cons_append, ppGo, ppStep, hcr, if_true] at h
+          exact ppGo_fresh_code _ (nextIsPreproc_append r post hnp' hp) h
+      · rename_i hcr
+        have hcr' : isCr t = false := by simpa using hcr
+        simp only [List.cons_append, ppGo] at h ⊢
+        cases hs : ppStep .code t with
+        | none => simp [hs] at h
+        | some s' =>
+          simp only [hs] at h ⊢
+          have := ppStep_code_some t s' hcr' hs
+          subst this
+          exact ih h
+
+/-- the state of the scan after a prefix -/
+def ppRun : PpSt → List Tok → Option PpSt
+  | s, [] => some s
+  | s, t :: r =>
+    match ppStep s t with
+    | none => none
+    | some s' => ppRun s' r
+
+theorem ppGo_append (s : PpSt) (a b : List Tok) :
+    ppGo s (a ++ b) = (match ppRun s a with | none => false | some s' => ppGo s' b) := by
+  induction a generalizing s with
+  | nil => rfl
+  | cons t r ih =>
+    simp only [List.cons_append, ppGo, ppRun]
+    cases ppStep s t with
+    | none => rfl
+    | some s' => exact ih s'
+
+theorem ppStep_solid (s : PpSt) (t : Tok) (s' : PpSt) (hc : isCr t = false) (hw : isWs t = false)
+    (hp : (t.kind == .preproc) = false) (h : ppStep s t = some s') : s' = .code := by
+  unfold ppStep at h
+  simp only [hc, hw, hp, Bool.false_eq_true, if_false] at h
+  split at h
+  · cases h
+  · injection h with h; exact h.symm
+
+/-- **remove_carriage_return_after_token, repaired**: in every context whose right part does not begin
+    with a preprocessor line, preprocessor lines that stood alone on their lines still do — provided the
+    region starts with a solid token (the keyword the rule is about) -/
+theorem fixRemoveCrAfter_preprocSafe (c : Cls) (b : Bool) (l new : List Tok) (h : fixRemoveCrAfter c b l = .ok new)
+    (hhead : headSolid l = true) (pre post : List Tok) (hpost : nextIsPreproc post = false)
+    (hok : preprocOwnLine (pre ++ l ++ post) = true) : preprocOwnLine (pre ++ new ++ post) = true := by
+  have hf := fixRemoveCrAfter_filterWs c b l new h
+  unfold preprocOwnLine at hok ⊢
+  rw [List.append_assoc, ppGo_append] at hok ⊢
+  cases hr : ppRun .fresh pre with
+  | none => simp [hr] at hok
+  | some s0 =>
+    simp only [hr] at hok ⊢
+    -- whitespace tokens aside, `new` is `removeCrBeforeComment l`
+    rw [← ppGo_dropWs, List.filter_append, hf, ← List.filter_append, ppGo_dropWs]
+    cases l with
+    | nil => simp [headSolid] at hhead
+    | cons t r =>
+      simp only [headSolid, Bool.and_eq_true, Bool.not_eq_true'] at hhead
+      obtain ⟨⟨hc, hw⟩, hp⟩ := hhead
+      have hci : removeCrBeforeComment (t :: r) = t :: r ∨ removeCrBeforeComment (t :: r) = t :: removeCrBeforeComment r := by
+        simp only [removeCrBeforeComment, hc, Bool.false_eq_true, if_false]
+        split
+        · exact Or.inl rfl
+        · exact Or.inr rfl
+      rcases hci with e | e
+      · rw [e]; exact hok
+      · rw [e]
+        simp only [List.cons_append, ppGo] at hok ⊢
+        cases hs : ppStep s0 t with
+        | none => simp [hs] at hok
+        | some s' =>
+          simp only [hs] at hok ⊢
+          have := ppStep_solid s0 t s' hc hw hp hs
+          subst this
+          exact ppGo_removeCrBeforeComment r post hpost hok
 
 /-! ## block_001: moving a token sequence -/
 
@@ -2017,6 +2224,22 @@ theorem dispatch_layout (c : Cls) (owner : String) (params action : KV) (old new
       exact ⟨(fixRemoveCr_spec c b old new h).1,
         by simp [breakOwners, insertCrAfterOwners, splitLineOwners, splitAtOwners],
         by simp [removeCrAfterOwners], fun _ => (fixRemoveCr_spec c b old new h).2⟩
+
+/-- remove_carriage_return_after_token through the dispatch: preprocessor lines stay lines of their own -/
+theorem dispatch_removeCrAfter_preproc (c : Cls) (owner : String) (params action : KV) (old new : List Tok)
+    (ho : owner ∈ removeCrAfterOwners) (h : LineStruct.fixByOwner c owner params action old = some (.ok new))
+    (hhead : headSolid old = true) (pre post : List Tok) (hpost : nextIsPreproc post = false)
+    (hok : preprocOwnLine (pre ++ old ++ post) = true) : preprocOwnLine (pre ++ new ++ post) = true := by
+  simp only [removeCrAfterOwners, List.mem_cons, List.mem_singleton, List.not_mem_nil, or_false] at ho
+  subst ho
+  simp [LineStruct.fixByOwner, moveNextOwners, moveNextBetweenOwners, moveLeftOwners, moveRightOwners,
+    moveTokenOwners, moveRightOfOwners, moveSeqOwners, insertCrAfterOwners, splitLineOwners, splitAtOwners,
+    removeCrAfterOwners, removeCrPairsOwners] at h
+  cases h1 : needBool params "bInsertSpace" with
+  | error e => simp [h1, bind, Except.bind] at h
+  | ok b =>
+    simp only [h1, bind, Except.bind] at h
+    exact fixRemoveCrAfter_preprocSafe c b old new h hhead pre post hpost hok
 
 /-! ## move_token with `preserve_comment`: consequences -/
 
